@@ -209,6 +209,20 @@ func runCanariesImpl(dir string) string {
 			fails = append(fails, "whocalls: the interface call in ViaInterface was not attributed to (*memSink).Put")
 		}
 	}
+	// `go` statements are visible to the sequentiality rule
+	{
+		found := false
+		if fi := need("Spawns"); fi != nil {
+			allInstrs(fi.SSA, false, func(_ *ssa.Function, _ *ssa.BasicBlock, _ int, ins ssa.Instruction) {
+				if _, ok := ins.(*ssa.Go); ok {
+					found = true
+				}
+			})
+		}
+		if !found {
+			fails = append(fails, "sequential: the go statement in Spawns is not seen")
+		}
+	}
 	// pure helpers
 	if octalOnly(`^(0?[0-7]{3})?$`) != "" {
 		fails = append(fails, "regex-lang: the shipped permission pattern is rejected")
